@@ -1,5 +1,5 @@
 # C05 - e2fsck never alters healthy files
-import json, os, struct, subprocess, hashlib, shutil, concurrent.futures
+import json, os, re, struct, subprocess, hashlib, shutil, concurrent.futures
 import e2v, extfmt, corrupt
 from extfmt import *
 from props import c02
@@ -233,6 +233,83 @@ def summary_case(src, idx, seed, tier):
     return recipe, problems
 
 
+def _cat(src, img, path, env):
+    p = subprocess.run([os.path.join(src, "debugfs/debugfs"), "-R", "cat " + path, img], stdout=subprocess.PIPE, stderr=subprocess.DEVNULL, env=env, timeout=120)
+    return hashlib.sha256(p.stdout).hexdigest()[:16], len(p.stdout)
+
+
+def inline_ea_csum_case(src):
+    """an inline-data file that also owns an attribute block; only that block's h_checksum is damaged: checksum-only damage,
+    the repair may not change the file"""
+    img = os.path.join(WORK, "d_inline_ea.img")
+    T = lambda p: os.path.join(src, p)
+    env = e2v.tool_env(src, E2FSPROGS_FAKE_TIME="1700000000")
+    small, val = os.path.join(WORK, "d_small.txt"), os.path.join(WORK, "d_val.txt")
+    open(small, "wb").write(b"x" * 99 + b"\n")
+    open(val, "wb").write(b"v" * 300)
+    recipe = {"directed": "inline_data file with an attribute block, h_checksum of the block xor 0x5a5a5a5a", "mode": "-fy", "case_index": -1}
+    rc, out = e2v.sh([T("misc/mke2fs"), "-q", "-F", "-t", "ext4", "-O", "inline_data,metadata_csum", img, "8M"], env=env, timeout=120)
+    e2v.sh([T("debugfs/debugfs"), "-w", "-f", "-", img], input=("write %s small\nea_set -f %s small user.big\n" % (small, val)).encode(), env=env, timeout=60)
+    rc, out = e2v.sh([T("debugfs/debugfs"), "-R", "stat small", img], env=env, timeout=60)
+    m = re.search(r"File ACL: (\d+)", out)
+    if not m or int(m.group(1)) == 0 or e2v.sh([T("e2fsck/e2fsck"), "-fn", img], env=env, timeout=120)[0] != 0:
+        return recipe, []
+    before = _cat(src, img, "small", env)
+    with open(img, "r+b") as f:
+        off = int(m.group(1)) * 1024 + 16
+        f.seek(off)
+        c = struct.unpack("<I", f.read(4))[0]
+        f.seek(off)
+        f.write(struct.pack("<I", c ^ 0x5a5a5a5a))
+    rc, out = e2v.sh([T("e2fsck/e2fsck"), "-fy", img], env=env, timeout=120)
+    problems = []
+    if rc & ~3 or rc < 0:
+        problems.append("e2fsck -fy exits %d" % rc)
+    after = _cat(src, img, "small", env)
+    if after != before:
+        problems.append("files changed by repairing checksum-only damage: /small was %d bytes (%s), is %d bytes (%s)" % (before[1], before[0], after[1], after[0]))
+    if e2v.sh([T("e2fsck/e2fsck"), "-fn", img], env=env, timeout=120)[0] != 0:
+        problems.append("not clean after repair")
+    os.unlink(img)
+    return recipe, problems
+
+
+def bmap2extent_full_case(src):
+    """a consistent filesystem without a free block; a block-mapped file of six fragments and no indirect block to recycle:
+    -E bmap2extent needs a leaf block it cannot get"""
+    img = os.path.join(WORK, "d_b2e_full.img")
+    T = lambda p: os.path.join(src, p)
+    env = e2v.tool_env(src, E2FSPROGS_FAKE_TIME="1700000000")
+    r = e2v.rng(1, "c05b2e", 0)
+    recipe = {"directed": "bmap2extent on a full filesystem (600 1k blocks, file of six one-block fragments, no free block)", "mode": "-fy -E bmap2extent", "case_index": -2}
+    files = {}
+    for nm, n in [("s%d" % i, 1024) for i in range(1, 15)] + [("frag", 6144), ("fill", 700000)]:
+        files[nm] = os.path.join(WORK, "d_b2e_" + nm)
+        open(files[nm], "wb").write(bytes(r.getrandbits(8) for _ in range(n)))
+    rc, out = e2v.sh([T("misc/mke2fs"), "-q", "-F", "-t", "ext2", "-O", "^resize_inode,^dir_index", "-m", "0", "-b", "1024", "-N", "64", img, "600"], env=env, timeout=120)
+    cmds = ["write %s s%d" % (files["s%d" % i], i) for i in range(1, 15)] + ["rm s%d" % i for i in (2, 4, 6, 8, 10, 12)] + \
+           ["write %s frag" % files["frag"], "write %s fill" % files["fill"]]
+    e2v.sh([T("debugfs/debugfs"), "-w", "-f", "-", img], input=("\n".join(cmds) + "\n").encode(), env=env, timeout=120)
+    e2v.sh([T("e2fsck/e2fsck"), "-fy", img], env=env, timeout=120)
+    for f in files.values():
+        os.unlink(f)
+    if e2v.sh([T("e2fsck/e2fsck"), "-fn", img], env=env, timeout=120)[0] != 0:
+        return recipe, []
+    before = _cat(src, img, "frag", env)
+    rc, out = e2v.sh([T("e2fsck/e2fsck"), "-fy", "-E", "bmap2extent", img], env=env, timeout=120)
+    problems = []
+    after = _cat(src, img, "frag", env)
+    if after != before:
+        problems.append("files changed: /frag was %d bytes (%s), is %d bytes (%s); e2fsck -fy -E bmap2extent exit %d" % (before[1], before[0], after[1], after[0], rc))
+        if "rebuilding extent map" in out or "Operation not permitted" in out or "No space" in out or "Could not allocate" in out:
+            recipe["enospc_in_rebuild"] = True
+    rc2 = e2v.sh([T("e2fsck/e2fsck"), "-fn", img], env=env, timeout=120)[0]
+    if rc2 != 0:
+        problems.append("e2fsck -fn exits %d after e2fsck -fy -E bmap2extent on a consistent filesystem" % rc2)
+    os.unlink(img)
+    return recipe, problems
+
+
 def run(res, replay=None):
     tier, seed = res.tier, res.seed
     os.makedirs(WORK, exist_ok=True)
@@ -264,7 +341,7 @@ def run(res, replay=None):
             bad.append((recipe, problems))
         if drift:
             drifts.append((recipe, drift))
-    for recipe, problems in souts:
+    for recipe, problems in souts + [inline_ea_csum_case(src), bmap2extent_full_case(src)]:
         res.case(json.dumps(recipe), True)
         if problems:
             bad.append((recipe, problems))
@@ -284,10 +361,23 @@ def run(res, replay=None):
             return "c05:sb-csum-damaged-nondefault-group-size"
         if recipe.get("only_uninit_shadow"):
             return "c05:uninit-group-metadata-bit-clear-on-disk"
+        if recipe.get("case_index") == -2 and recipe.get("enospc_in_rebuild"):
+            return "c05:bmap2extent-without-a-free-block"
         return "c05:" + hashlib.sha256(json.dumps(recipe).encode()).hexdigest()[:12]
-    bad.sort(key=lambda x: 1 if sig(x[0], x[1]).startswith(("c05:sb-", "c05:uninit-")) else 0)
-    for recipe, problems in bad[:3]:
-        res.violation("oracle", {"recipe": recipe, "problems": problems[:5]}, signature=sig(recipe, problems))
+    bad.sort(key=lambda x: 1 if sig(x[0], x[1]).startswith(("c05:sb-", "c05:uninit-", "c05:bmap2extent-")) else 0)
+    KNOWN_SIGS = ("c05:sb-", "c05:uninit-", "c05:bmap2extent-")
+    seen, unknown = set(), 0
+    for recipe, problems in bad:
+        sg = sig(recipe, problems)
+        if sg.startswith(KNOWN_SIGS):
+            if sg in seen:
+                continue
+            seen.add(sg)
+        else:
+            unknown += 1
+            if unknown > 3:
+                continue
+        res.violation("oracle", {"recipe": recipe, "problems": problems[:5]}, signature=sg)
     if drifts and not bad:
         res.violation("correspondence", {"recipe": drifts[0][0], "drift": drifts[0][1],
                                          "note": "rebuilt directory blocks differ from the packing model; files and consistency are unaffected on every generated case"}, has_input=False)
